@@ -56,6 +56,16 @@ func genRender(tier string, rng *RNG, emit func(Case)) {
 		}
 		emit(Case{Op: "doc", Args: []string{c.Name(), hx(d)}})
 	})
+	// near misses of allowed attribute names on headings (Attribute option on), in safe mode
+	nm := NearMissAttrNames()
+	step := 1
+	if tier != "thorough" && len(nm) > 1500 {
+		step = len(nm)/1500 + 1
+	}
+	for i := 0; i < len(nm); i += step {
+		d := "# h {" + nm[i] + "=v " + nm[(i*7+3)%len(nm)] + "=\"w\"}\n"
+		emit(Case{Op: "doc", Args: []string{Cfg{Exts: "tskldfy", Attr: true, XHTML: i%2 == 0}.Name(), hx([]byte(d))}})
+	}
 	for i := 0; i < ntrees; i++ {
 		c := randCfg(rng)
 		c.Exts = []string{"tskdf", "tskdf", "", "t", "f", "tskdf1", "tskdf2e"}[rng.Intn(7)]
